@@ -70,7 +70,7 @@ def replay_with_flags(ops, flags, base=False):
 def gen_ops(rng):
     close_all()
     live = W.Live("M")
-    ops = [["set_mref", "u", 11], ["set_mref", "r", 12]] + S.motif(rng, [1, 1, 4, 3, 1, 2])
+    ops = [["set_mref", "u", 11], ["set_mref", "r", 12]] + S.motif(rng, [1, 1, 4, 3, 1, 2, 1, 1, 0, 1, 1])  # motif 8 assigns a value (uncached cells refuse that)
     focus = 2 if rng.random() < 0.6 else None
     try:
         for op in ops:
@@ -128,8 +128,8 @@ def enumerate_single_edits(ctx, out, stats, allassign):
     """small-scope exhaustive part: every motif program x every applicable single edit x flag
     assignments: evaluate everything, edit, evaluate everything; results must not depend on flags"""
     for mi, motif in enumerate(S.MOTIFS):
-        if not motif:
-            continue
+        if not motif or any(o[0] == "set_value" for o in motif):
+            continue        # inputs need a cached cells
         prefix = [["set_mref", "u", 11], ["set_mref", "r", 12]] + [list(o) for o in motif]
         close_all()
         live = W.Live("M")
@@ -142,10 +142,16 @@ def enumerate_single_edits(ctx, out, stats, allassign):
             close_all()
         rng = ctx.rng("enum", mi)
         if ctx.tier == "quick":
-            edits = rng.sample(edits, min(len(edits), 14))
+            # a seeded sample, plus every edit that changes what a sub space derives from
+            always = [e for e in edits if e[0] in ("remove_bases", "del_cells") or (e[0] == "set_formula" and e[3][0] == 0)
+                      or (e[0] == "add_bases" and len(e[2]) == 1)]
+            edits = rng.sample(edits, min(len(edits), 6))
+            edits += [e for e in always if e not in edits]
+        single = [a for a in allassign if sum(1 for x in a if not x) in (1, 2)]
         for e in edits:
             ops = prefix + [["evalall"], e, ["evalall"]]
-            assignments = allassign[1:] if ctx.tier == "thorough" else rng.sample(allassign[1:], 5)
+            # quick: nothing cached, and every one or two cells uncached
+            assignments = allassign[1:] if ctx.tier == "thorough" else [allassign[-1]] + single
             stats["enumerated_scenarios"] += 1
             check_history(ops, out, stats, assignments)
             if len([f for f in out.failures if not f.get("key")]) >= 4:
